@@ -222,6 +222,8 @@ func Src(e Expr) string {
 		return P(x.X) + " " + art + " " + x.Chk.String() + " ist"
 	case *DefaultOf:
 		return "der Standardwert von " + x.T.DatIndef()
+	case *RawLit:
+		return x.Raw
 	case *Arg:
 		return fmt.Sprintf("((die Befehlszeilenargumente) an der Stelle %d) als Zahl", x.I+2)
 	}
